@@ -86,6 +86,16 @@ func c16Sets() []*sgen.Schema {
 			{Kind: sgen.KDirective, Name: "tag", Locations: []string{"OBJECT"}},
 			{Kind: sgen.KDirective, Name: "Tag", Locations: []string{"OBJECT"}},
 		}},
+		// an explicit schema block with root types that are not called Query / Mutation, beside types nothing refers to: they
+		// may arrive in loads AFTER the block
+		{Blocks: []*sgen.SchemaBlock{{Query: "Root", Mutation: "Writer"}},
+			Defs: []*sgen.Def{
+				{Kind: sgen.KObject, Name: "Root", Fields: []*sgen.Field{f("r", N("Int"))}},
+				{Kind: sgen.KObject, Name: "Writer", Fields: []*sgen.Field{f("w", N("Int"))}},
+				{Kind: sgen.KObject, Name: "Alpha", Fields: []*sgen.Field{f("z", N("Zed"))}},
+				{Kind: sgen.KObject, Name: "Zed", Fields: []*sgen.Field{f("m", N("Mode"))}},
+				{Kind: sgen.KEnum, Name: "Mode", Values: []*sgen.EnumVal{{Name: "ON"}, {Name: "OFF"}}},
+			}},
 		// no schema block: the implicit schema is extended with root types that may arrive in the same load as the extension
 		{Blocks: []*sgen.SchemaBlock{{Extend: true, Mutation: "Change", Subscription: "Feed"}},
 			Defs: []*sgen.Def{
